@@ -9,7 +9,7 @@ from .loader import norm
 
 VERIF = os.path.dirname(os.path.dirname(os.path.abspath(__file__)))
 KNOWN_PATH = os.path.join(VERIF, "known_findings.json")
-EVIDENCE_DIR = os.path.join(VERIF, "evidence")
+EVIDENCE_DIR = os.environ.get("CLIKIT_SA_EVIDENCE_DIR") or os.path.join(VERIF, "evidence")  # override only used by tools/try_seed.py
 REPLAY_DIR = os.path.join(EVIDENCE_DIR, "replay")
 
 
